@@ -19,7 +19,7 @@ CHECKS.update({
  'C10': _c('C10', 'duplicates/unique partition by key multiplicity (tags), distinct keeps the first row of each key and counts add to nrows, conflicts is sound (only rows of disagreeing duplicate groups), isunique iff duplicates empty; whole-row keys via multisets.'),
 })
 CHECKS.update({
- 'C04': _c('C04', 'For every ordered triple of value types the ordering laws (trichotomy, transitivity incl. through ==, derived operators, agreement with ==, the documented ladder via an independent reference order) are checked on symbolic ints/bools/floats/strings/sequences and on representatives for Decimal/date/time and numeric-mixing triples; issorted, comparison selectors and merge joins are checked to use the same order.'),
+ 'C04': _c('C04', 'For every ordered triple of value types the ordering laws (trichotomy, transitivity incl. through ==, derived operators, agreement with ==, the documented ladder via an independent reference order) are checked on symbolic ints/bools/floats/strings/sequences and on representatives for Decimal/date/time and numeric-mixing triples; every pair is also compared wrapped-vs-raw in both operand positions (what the selectors do); issorted, comparison selectors (incl. list/tuple cells) and merge joins are checked to use the same order.'),
  'C13': _c('C13', 'Every selector is checked row by row against its documented predicate (reference order, missing cells), with the complement being the exact rest; biselect/facet/search partition; rowslice/head/tail/skip equal itertools.islice for all small argument triples.'),
  'C17': _c('C17', 'Real sqlite3 on a real file: for every row count, prior contents, failure position (header, each row, exhaustion, none), handle kind, commit flag and todb/appenddb, a fresh connection must see exactly the previous or the fully loaded contents.'),
  'C19': _c('C19', 'A symbolic failing flag per row (and field), symbolic policy, policy source (argument vs config) and errorvalue; convert/fieldmap/rowmap/rowmapmany output is compared with a reference per policy, including when the exception surfaces.'),
@@ -31,7 +31,7 @@ CHECKS.update({
  'C18': _c('C18', 'Real temp files in a private directory: symbolic histories of create/advance/release operations over 2-3 iterator slots and the view, plus source failures at a symbolic row; after everything is released the directory must be empty, and every live iterator (also one outliving its view or served from the file cache) must deliver the sorted reference.'),
 })
 CHECKS.update({
- 'C02': _c('C02', 'With counting sources on every input: constructing any catalogue pipeline reads no data row; for streaming entries the rows pulled for k outputs are bounded by the smallest source prefix on which the real operator already yields those outputs (+ the catalogued look-ahead), with and without 3 extra source rows; display functions and compositions of streaming operators likewise.'),
+ 'C02': _c('C02', 'With counting sources on every input: constructing any catalogue pipeline reads no data row; for streaming entries the rows pulled for k outputs are bounded by the smallest source prefix on which the real operator already yields those outputs (+ the catalogued look-ahead), summed over the source iterators and for each single source iterator, with and without 3 extra source rows; display functions and compositions of streaming operators likewise.'),
  'C03': _c('C03', 'For every catalogue entry over list-of-lists sources (rectangular and ragged), after a partial pass abandoned at a symbolic row plus a full pass: every source container, header, row object and cell is unchanged and every row already delivered still equals its copy taken at yield time.'),
  'C12': _c('C12', 'Cell-by-cell reference models of the documented behaviour of cut/cutout/movefield/cat/stack/annex/addfield(s)/addcolumn/addrownumbers/addfieldusingcontext/header functions/convert family/fills/fieldmap/rowmap/sub/accessors, with symbolic row counts, ragged row lengths, field selectors (names, indices, out of range), insertion indices and missing values.'),
  'C14': _c('C14', 'melt->recast reproduces the table for unique symbolic keys (incl. compound keys given in another order), transpose is an involution, unflatten(flatten) reproduces the data rows, melt emits one row per cell, pivot cells aggregate exactly the rows with that pair, unpack/unpackdict/capture/split/splitdown expand one field only, fromdicts(dicts) and fromcolumns(columns) round-trip.'),
